@@ -249,7 +249,7 @@ impl Sim {
                 self.update_model(ev, &sender, &delta);
                 if matches!(
                     ev.op,
-                    Op::CreatePair { .. } | Op::AddNativeDecimals { .. } | Op::MigratePair { .. } | Op::Raw { .. } | Op::UpdateConfig { .. }
+                    Op::CreatePair { .. } | Op::AddNativeDecimals { .. } | Op::MigratePair { .. } | Op::Raw { .. } | Op::UpdateConfig { .. } | Op::Migrate { .. }
                 ) {
                     // the audit is O(pairs): on very large registries run it on every tenth creation
                     // (and on every decimals update / migration / raw message)
